@@ -19,6 +19,14 @@ PROP = dict(
         dict(module="MCRoundTripSession", cfg="MCRoundTripSession_mut_rewind.cfg", expect_violation="UploadAgreesMC", timeout=300),
         dict(module="MCRoundTripSession", cfg="MCRoundTripSession_mut_staticmemo.cfg", expect_violation="SessionAgrees", timeout=300),
         dict(module="MCRoundTripSession", cfg="MCRoundTripSession_mut_decodedkeycache.cfg", expect_violation="SessionAgrees", timeout=300),
+        # form fields vs same-named query keys, failing upload sources, bodies delivered in pieces under connection re-use
+        dict(module="MCRoundTripSession", cfg="MCRoundTripSession_mut_formfromquery.cfg", expect_violation="FormAgreesMC", timeout=300),
+        dict(module="MCRoundTripSession", cfg="MCRoundTripSession_mut_truncateonerror.cfg", expect_violation="UploadAgreesMC", timeout=300),
+        dict(module="MCRoundTripSession", cfg="MCRoundTripSession_mut_shortreadeof.cfg", expect_violation="PiecesIntactMC", timeout=300),
+        # concurrent requests of one operation: every interleaving of bind / invoke-handler steps; the bound parameters are per request
+        dict(module="MCRoundTripConc", cfg=dict(quick="MCRoundTripConc_quick.cfg", thorough="MCRoundTripConc_thorough.cfg"),
+             timeout=dict(quick=300, thorough=600)),
+        dict(module="MCRoundTripConc", cfg="MCRoundTripConc_mut_sharedbound.cfg", expect_violation="EachGetsItsOwn", timeout=300),
     ],
     level_text="RoundTrip carries compact encode / transport / decode tables per parameter location (path: PathEscape -> EscapedPath, "
                "path.Clean, segment match, PathUnescape; query and urlencoded form: QueryEscape -> ParseQuery; header: verbatim -> OWS "
@@ -32,7 +40,11 @@ PROP = dict(
                "templates whose request paths coincide once decoded, parameter-free operations called with each media type they consume "
                "(string bodies as JSON or text) - and every call of every session must arrive as supplied and be answered as by a fresh "
                "server; upload sources are [content, offset, seekable, typed] and supply what remains to be read. The driver runs such "
-               "sessions through one client.Runtime against one server built for the case, one validated event per call.",
+               "sessions through one client.Runtime against one server built for the case, one validated event per call. Further modelled and "
+               "driven: form fields are bound from the body alone although the URL's query (static parameters of the base path / pattern) "
+               "has same-named keys; upload sources that fail deliver nothing and the caller is told; response bodies delivered in pieces "
+               "reach the reader intact with and without connection re-use; concurrent requests of one operation (all interleavings of "
+               "bind / invoke in TLC; batches of 8/64 goroutines in the driver) each invoke the handler exactly once with their own values.",
     level_note="bounded exhaustive at model level; real code bound by trace validation of the executed exchanges only; JSON values are "
                "compared by canonical re-encoding, file and body contents by SHA-256 (harness abstraction functions)",
     design_ref="DESIGN.md 4.4",
@@ -51,11 +63,17 @@ PROP = dict(
          "*os.File / typed x 11 sizes around the 512-byte sniffing window x offsets {0,1,n/2,n-1,n,512,513}; every media-type sequence "
          "of length 2-3 per parameter-free operation; every ordered pair of calls from a pool of 26 (thorough 36) with colliding decoded "
          "paths; seeded sessions (quick 400, thorough 8000) incl. Runtime.Debug on. Non-trivial: an exchange completed with at least "
-         "one supplied parameter; distinct by hash of the case.",
+         "one supplied parameter; distinct by hash of the case. Also: static query parameters in base path / pattern named like form "
+         "fields and query parameters x 7 operations; upload sources failing at {0,1,511,512,513,mid,last} x 3 source kinds x 7 sizes "
+         "(alone, as one of two files, between healthy uploads); EnableConnectionReuse on/off x bodies in 1/2/5/40 flushed pieces x sizes "
+         "to 100 kB (thorough 1 MB) x 6 operations; concurrent batches: 7 operations x 8/64 goroutines x GOMAXPROCS 1/4/16 x wire / in-"
+         "process transport x rendezvous groups (middleware.VerifHook, stage bound) + 8 batches of 4000 (thorough 20000) calls in groups "
+         "of 8 on 16 procs, every call with values of its own, events emitted in call order.",
     assumptions=COMMON_ASSUME + [
         "no two operations of an API differ only by a literal segment that a supplied path value could equal (literal routes win by design)",
         "integers and booleans are supplied in their canonical text; body parameters are JSON objects or arrays, or strings (valid UTF-8) sent as JSON or as non-empty text/plain (text consumer adapted to the untyped binder's interface{} target); array parameters use collectionFormat multi",
         "an upload source supplies what remains to be read from its current position; sibling path templates differ in their number of segments",
+        "a call whose upload source fails must fail for the caller (what the server made of the aborted request is not constrained); in concurrent batches a handler invocation is attributed to the call whose (unique) values it carries",
         "handlers return final, non-redirect statuses (the client's http.Client follows 3xx); 204/304 carry no body; response header values are transportable",
     ],
 )
